@@ -279,6 +279,32 @@ def referrers(tree):
   return out
 
 
+def expand_method_aliases(tree):
+  """`visit_A = visit_B = _impl` in a class body (the same function under
+  several names) becomes one def per name."""
+  n = 0
+  for c in tree.body:
+    if not isinstance(c, ast.ClassDef):
+      continue
+    defs = {m.name: m for m in c.body if isinstance(m, ast.FunctionDef)}
+    out = []
+    for st in c.body:
+      if isinstance(st, ast.Assign) and isinstance(st.value, ast.Name) and \
+          st.value.id in defs and all(isinstance(t, ast.Name) for t in st.targets) and \
+          not any(t.id in defs for t in st.targets):
+        for t in st.targets:
+          d = copy.deepcopy(defs[st.value.id])
+          d.name = t.id
+          out.append(ast.copy_location(d, st))
+          n += 1
+        continue
+      out.append(st)
+    c.body = out
+  if n:
+    ast.fix_missing_locations(tree)
+  return n
+
+
 def _move_back_methods(tree, cur, gone, new, sh):
   """A private method of the reference tree that is gone while a new private
   module-level function has its name, one parameter less (no self) and is called
@@ -478,8 +504,16 @@ def eligible(fn, is_method):
     is_method = False          # no self: binds like a plain function
   elif fn.decorator_list:
     return False
-  if a.vararg or a.kwarg or a.posonlyargs:
+  if a.kwarg or a.posonlyargs:
     return False
+  if a.vararg:
+    # *rest is supported when it is only ever forwarded as *rest in calls
+    v = a.vararg.arg
+    starred = {id(x.value) for c in ast.walk(fn) if isinstance(c, ast.Call)
+               for x in c.args if isinstance(x, ast.Starred)}
+    if any(isinstance(n, ast.Name) and n.id == v and id(n) not in starred
+           for n in ast.walk(fn)) or a.kwonlyargs:
+      return False
   if _has(fn, (ast.Yield, ast.YieldFrom, ast.Await, ast.Global, ast.Nonlocal, ast.Lambda)):
     pass
   for n in ast.walk(fn):
@@ -717,6 +751,19 @@ class _Rename(ast.NodeTransformer):
       return ast.copy_location(ast.Name(id=self.mapping[n.id], ctx=n.ctx), n)
     return n
 
+  def visit_Call(self, n):
+    self.generic_visit(n)
+    # f(a, *(x, y))  ==  f(a, x, y)   (a forwarded *rest after substitution)
+    if any(isinstance(a, ast.Starred) and isinstance(a.value, ast.Tuple) for a in n.args):
+      args = []
+      for a in n.args:
+        if isinstance(a, ast.Starred) and isinstance(a.value, ast.Tuple):
+          args.extend(a.value.elts)
+        else:
+          args.append(a)
+      n.args = args
+    return n
+
 
 def _simple(e):
   if isinstance(e, (ast.Name, ast.Constant)):
@@ -739,9 +786,14 @@ def _bind(fn, call, is_method):
   kwonly = [a.arg for a in fn.args.kwonlyargs]
   if any(isinstance(a, ast.Starred) for a in call.args) or any(k.arg is None for k in call.keywords):
     return None
-  if len(call.args) > len(params):
-    return None
   bound = {}
+  if len(call.args) > len(params):
+    if not fn.args.vararg:
+      return None
+    bound[fn.args.vararg.arg] = ast.Tuple(elts=list(call.args[len(params):]),
+                                          ctx=ast.Load())
+  elif fn.args.vararg:
+    bound[fn.args.vararg.arg] = ast.Tuple(elts=[], ctx=ast.Load())
   for p, a in zip(params, call.args):
     bound[p] = a
   for k in call.keywords:
@@ -754,7 +806,8 @@ def _bind(fn, call, is_method):
   for p, d in zip(kwonly, fn.args.kw_defaults):
     if d is not None:
       bound.setdefault(p, d)
-  if set(bound) != set(params + kwonly):
+  if set(bound) != set(params + kwonly + (
+      [fn.args.vararg.arg] if fn.args.vararg else [])):
     return None
   return bound
 
@@ -1147,6 +1200,7 @@ def apply(tree, rel):
   """Inlines helpers that are new with respect to the reference tree, then
   removes pure aliases.  Returns the number of call sites rewritten (tree is
   modified in place)."""
+  expand_method_aliases(tree)
   rename_back(tree, rel)
   inline_new_constants(tree, rel)
   inline_new_class_constants(tree, rel)
@@ -1552,24 +1606,49 @@ def propagate_aliases(fn):
       return 0       # closures may capture: keep it simple
   roots = {p for p in params if stores.get(p, 0) == 0}
   done = 0
-  for i, st in enumerate(list(fn.body)):
-    if isinstance(st, ast.Assign) and len(st.targets) == 1 and isinstance(
-        st.targets[0], ast.Name) and stores.get(st.targets[0].id) == 1 and \
-        st.targets[0].id not in params and ((isinstance(
-            st.value, (ast.Attribute, ast.Subscript)) and _pure_chain(st.value, roots))
-                                            or (isinstance(st.value, ast.Tuple) and st.value.elts
-                                                and all(isinstance(x, (ast.Attribute, ast.Subscript))
-                                                        and _pure_chain(x, roots)
-                                                        for x in st.value.elts))
-                                            or (isinstance(st.value, ast.Tuple) and _table(st.value)
-                                                and not any(isinstance(x, ast.Name) and stores.get(x.id)
-                                                            for x in ast.walk(st.value)))):
+
+  def loads(root, name):
+    return sum(1 for x in ast.walk(root) if isinstance(x, ast.Name) and x.id == name
+               and isinstance(x.ctx, ast.Load))
+
+  def blocks(stmts):
+    yield stmts
+    for st in stmts:
+      for f in ('body', 'orelse', 'finalbody'):
+        bl = getattr(st, f, None)
+        if isinstance(bl, list) and bl and isinstance(bl[0], ast.stmt):
+          yield from blocks(bl)
+      for h in getattr(st, 'handlers', []) or []:
+        yield from blocks(h.body)
+
+  for block in list(blocks(fn.body)):
+    for st in list(block):
+      if not (isinstance(st, ast.Assign) and len(st.targets) == 1 and isinstance(
+          st.targets[0], ast.Name) and stores.get(st.targets[0].id) == 1 and
+              st.targets[0].id not in params):
+        continue
+      v = st.value
+      chain_ok = isinstance(v, (ast.Attribute, ast.Subscript)) and _pure_chain(v, roots)
+      tuple_ok = isinstance(v, ast.Tuple) and v.elts and all(
+          isinstance(x, (ast.Attribute, ast.Subscript)) and _pure_chain(x, roots)
+          for x in v.elts)
+      # a literal table: constants, module-level names, chains of unassigned
+      # parameters (self.method): nothing in it can change before it is used
+      table_ok = isinstance(v, ast.Tuple) and _table(v) and not any(
+          isinstance(x, ast.Name) and stores.get(x.id) for x in ast.walk(v))
+      if not (chain_ok or tuple_ok or table_ok):
+        continue
       name = st.targets[0].id
+      if st not in block:
+        continue
+      idx = block.index(st)
+      # every read of the name comes after the assignment, in the same block
+      if loads(fn, name) != sum(loads(x, name) for x in block[idx + 1:]):
+        continue
       # the chain must not be written through between definition and uses:
       # accept only if no statement of the function assigns an attribute /
       # subscript whose text equals a prefix of the chain
-      chains = [ast.unparse(x) for x in (
-          st.value.elts if isinstance(st.value, ast.Tuple) else [st.value])
+      chains = [ast.unparse(x) for x in ast.walk(v)
                 if isinstance(x, (ast.Attribute, ast.Subscript))]
       clobber = False
       for n in ast.walk(fn):
@@ -1581,14 +1660,15 @@ def propagate_aliases(fn):
         continue
 
       class R(ast.NodeTransformer):
-        def visit_Name(self, n):
+        def visit_Name(self, n, name=name, v=v):
           if n.id == name and isinstance(n.ctx, ast.Load):
-            return ast.copy_location(copy.deepcopy(st.value), n)
+            return ast.copy_location(copy.deepcopy(v), n)
           return n
-      idx = fn.body.index(st)
-      for j in range(idx + 1, len(fn.body)):
-        fn.body[j] = R().visit(fn.body[j])
-      fn.body.remove(st)
+      for j in range(idx + 1, len(block)):
+        block[j] = R().visit(block[j])
+      block.remove(st)
+      if not block:
+        block.append(ast.copy_location(ast.Pass(), st))
       done += 1
   if not fn.body:
     fn.body = [ast.Pass()]
